@@ -102,6 +102,21 @@ func main() {
 					}
 				}
 				emit(Ev{K: t.k, Sq: s, Cls: "mask", Occ: ol, Res: sqs(t.fn(Square(s), occ))})
+				// the same subset with EVERY square outside the mask occupied as well: must not matter
+				inMask := BitBoard(0)
+				for _, q := range m {
+					inMask |= 1 << q
+				}
+				outside := ^inMask &^ (BitBoard(1) << s)
+				emit(Ev{K: t.k, Sq: s, Cls: "full", Occ: sqs(occ | outside), Res: sqs(t.fn(Square(s), occ|outside))})
+				// ... and, for the extreme subsets, with each single outside square
+				if sub == 0 || sub == 1<<len(m)-1 {
+					for q := 0; q < 64; q++ {
+						if outside&(1<<q) != 0 {
+							emit(Ev{K: t.k, Sq: s, Cls: "full", Occ: sqs(occ | 1<<q), Res: sqs(t.fn(Square(s), occ|1<<q))})
+						}
+					}
+				}
 			}
 		}
 		emit(Ev{K: "king", Sq: s, Res: sqs(attacks.KingMoves(Square(s)))})
